@@ -234,14 +234,14 @@ func (e *Exec) evalSpec(x Expr, env *Env) Val {
 		if v.S != SSlice {
 			e.unsupported("slice expression on non-slice")
 		}
-		lo, hi := "0", "(s_len "+v.T+")"
+		lo, hi := "0", ""+e.slen(v.T)+""
 		if x.Lo != nil {
 			lo = e.evalSpec(x.Lo, env).T
 		}
 		if x.Hi != nil {
 			hi = e.evalSpec(x.Hi, env).T
 		}
-		return Val{T: "(mk_slice (s_base " + v.T + ") (+ (s_off " + v.T + ") " + lo + ") (- " + hi + " " + lo + ") (- (s_cap " + v.T + ") " + lo + "))", S: SSlice, Ty: v.Ty}
+		return Val{T: "(mk_slice "+e.sbase(v.T)+" (+ "+e.soff(v.T)+" " + lo + ") (- " + hi + " " + lo + ") (- "+e.scap(v.T)+" " + lo + "))", S: SSlice, Ty: v.Ty}
 	case EUpd:
 		m := e.evalSpec(x.X, env)
 		k := e.evalSpec(x.K, env)
@@ -273,7 +273,26 @@ func (e *Exec) evalSpec(x Expr, env *Env) Val {
 		if x.Forall {
 			q = "forall"
 		}
-		return boolVal("(" + q + " (" + strings.Join(binders, " ") + ") " + body.T + ")")
+		inner := body.T
+		if x.Forall {
+			var names []string
+			for _, qv := range x.Vars {
+				names = append(names, n.vars[qv.Name].T)
+			}
+			if trig := triggerCandidates(body.T, names); len(trig) > 0 {
+				inner = "(! " + body.T
+				for _, t := range trig {
+					inner += " :pattern (" + t + ")"
+				}
+				inner += ")"
+			}
+		}
+		plain := "(" + q + " (" + strings.Join(binders, " ") + ") " + body.T + ")"
+		if inner == body.T {
+			return boolVal(plain)
+		}
+		// both the solver's own trigger choice and our alternatives (logically the same formula twice)
+		return boolVal("(and " + plain + " (" + q + " (" + strings.Join(binders, " ") + ") " + inner + "))")
 	case ELet:
 		v := e.evalSpec(x.Val, env)
 		return e.evalSpec(x.Body, env.with(x.Name, v))
@@ -600,7 +619,7 @@ func (e *Exec) evalIndex(x EIndex, env *Env) Val {
 		switch t := v.Ty.Underlying().(type) {
 		case *types.Slice:
 			h, hs := e.elemHeap(t.Elem())
-			return Val{T: Sel(Sel(e.get(env.st, h, hs), "(s_base "+v.T+")"), "(+ (s_off "+v.T+") "+i.T+")"), S: e.sortOf(t.Elem()), Ty: t.Elem()}
+			return Val{T: Sel(Sel(e.get(env.st, h, hs), ""+e.sbase(v.T)+""), elemIdx(e.soff(v.T), i.T)), S: e.sortOf(t.Elem()), Ty: t.Elem()}
 		case *types.Array:
 			return Val{T: Sel(v.T, i.T), S: e.sortOf(t.Elem()), Ty: t.Elem()}
 		case *types.Map:
@@ -632,7 +651,7 @@ func (e *Exec) evalCall(x ECall, env *Env) Val {
 		v := arg(0)
 		switch {
 		case v.S == SSlice:
-			return intVal("(s_len " + v.T + ")")
+			return intVal(""+e.slen(v.T)+"")
 		case v.S == SStr:
 			return intVal("(str.len " + v.T + ")")
 		case v.S == SBytes:
@@ -661,7 +680,7 @@ func (e *Exec) evalCall(x ECall, env *Env) Val {
 		if v.Ty != nil {
 			if t, ok := v.Ty.Underlying().(*types.Slice); ok {
 				h, hs := e.elemHeap(t.Elem())
-				return Val{T: Sel(Sel(e.get(env.st, h, hs), "(s_base "+v.T+")"), arg(1).T), S: e.sortOf(t.Elem()), Ty: t.Elem()}
+				return Val{T: Sel(Sel(e.get(env.st, h, hs), ""+e.sbase(v.T)+""), arg(1).T), S: e.sortOf(t.Elem()), Ty: t.Elem()}
 			}
 		}
 		e.unsupported("raw() of %s", v.S)
@@ -683,7 +702,11 @@ func (e *Exec) evalCall(x ECall, env *Env) Val {
 	case "bapp":
 		return Val{T: "(bapp " + arg(0).T + " " + arg(1).T + ")", S: SBytes}
 	case "bnorm":
-		return boolVal("(bnorm " + arg(0).T + ")")
+		return boolVal("(bnormdef " + arg(0).T + ")")
+	case "bnormdef":
+		return boolVal("(bnormdef " + arg(0).T + ")")
+	case "bappdef":
+		return Val{T: "(bapp " + arg(0).T + " " + arg(1).T + ")", S: SBytes}
 	case "errstr":
 		return Val{T: "(errstr " + arg(0).T + ")", S: SStr, Ty: types.Typ[types.String]}
 	case "fresh":
@@ -691,14 +714,14 @@ func (e *Exec) evalCall(x ECall, env *Env) Val {
 		v := arg(0)
 		ref := v.T
 		if v.S == SSlice {
-			ref = "(s_base " + v.T + ")"
+			ref = ""+e.sbase(v.T)+""
 		}
 		return boolVal("(> " + ref + " " + e.top(env.old) + ")")
 	case "allocated":
 		v := arg(0)
 		ref := v.T
 		if v.S == SSlice {
-			ref = "(s_base " + v.T + ")"
+			ref = ""+e.sbase(v.T)+""
 		}
 		return boolVal("(<= " + ref + " " + e.top(env.st) + ")")
 	case "typeof":
@@ -772,9 +795,10 @@ func (e *Exec) evalCall(x ECall, env *Env) Val {
 	if len(x.Args) != len(sf.Params) {
 		e.unsupported("spec function %s expects %d arguments", x.Fun, len(sf.Params))
 	}
-	if sf.Body != nil {
+	if sf.Body != nil && !(sf.Opaque && !e.reveal[sf.Name]) {
 		// macro expansion in the current state
-		n := &Env{e: e, vars: map[string]Val{}, st: env.st, old: env.old, fr: nil, result: env.result}
+		n := &Env{e: e, vars: map[string]Val{}, st: env.st, old: env.old, fr: nil, result: env.result, bound: env.bound, inOld: env.inOld, obs: nil}
+		var lets []string
 		for i, p := range sf.Params {
 			v := arg(i)
 			if v.S == "nil" {
@@ -786,6 +810,13 @@ func (e *Exec) evalCall(x ECall, env *Env) Val {
 					v.Ty = ty
 				}
 			}
+			// share large argument terms through a let binding
+			if len(v.T) > 40 && v.S == SBytes {
+				sym := Sym(e.Out.FreshName("lt$" + p.Name))
+				lets = append(lets, "("+sym+" "+v.T+")")
+				v.T = sym
+				n.bound = true // no top-level assertions about terms that mention the let-bound symbol
+			}
 			n.vars[p.Name] = v
 		}
 		r := e.evalSpec(sf.Body, n)
@@ -793,6 +824,9 @@ func (e *Exec) evalCall(x ECall, env *Env) Val {
 			if _, ty := e.resolveType(sf.Result, nil); ty != nil {
 				r.Ty = ty
 			}
+		}
+		if len(lets) > 0 {
+			r.T = "(let (" + strings.Join(lets, " ") + ") " + r.T + ")"
 		}
 		return r
 	}
@@ -810,7 +844,9 @@ func (e *Exec) evalCall(x ECall, env *Env) Val {
 	}
 	rs, rt := e.resolveType(sf.Result, nil)
 	f := e.Out.DeclareFun("spec$"+sf.Name, sorts, rs)
-	e.P.Trusted["uninterpreted spec function: "+sf.Name] = true
+	if sf.Body == nil {
+		e.P.Trusted["uninterpreted spec function: "+sf.Name] = true
+	}
 	return Val{T: App(f, terms...), S: rs, Ty: rt}
 }
 
@@ -877,7 +913,7 @@ func (e *Exec) evalLoc(x Expr, env *Env) location {
 			switch t := v.Ty.Underlying().(type) {
 			case *types.Slice:
 				h, hs := e.elemHeap(t.Elem())
-				return location{kind: "heap", heap: h, hs: hs, ref: "(s_base " + v.T + ")", idx: "(+ (s_off " + v.T + ") " + i.T + ")"}
+				return location{kind: "heap", heap: h, hs: hs, ref: ""+e.sbase(v.T)+"", idx: elemIdx(e.soff(v.T), i.T)}
 			}
 		}
 	case ESlice:
@@ -885,7 +921,7 @@ func (e *Exec) evalLoc(x Expr, env *Env) location {
 		if v.Ty != nil {
 			if t, ok := v.Ty.Underlying().(*types.Slice); ok {
 				h, hs := e.elemHeap(t.Elem())
-				return location{kind: "heap", heap: h, hs: hs, ref: "(s_base " + v.T + ")"}
+				return location{kind: "heap", heap: h, hs: hs, ref: ""+e.sbase(v.T)+""}
 			}
 		}
 	case ESel:
